@@ -44,7 +44,8 @@ impl<'a> GeneratorState<'a> {
         Ok(())
     }
 
-    fn generate_included_source_code_line(&mut self, loc: usize) -> Option<&'a str> {
+    // Returns the text of the line that contains loc and its index in the line mapping
+    fn generate_included_source_code_line(&mut self, loc: usize) -> Option<(&'a str, usize)> {
         let mut start_of_line = self.last_included_char.clone();
         let mut start_of_line_pos = self.last_included_position;
         if self.last_included_position < loc {
@@ -64,16 +65,18 @@ impl<'a> GeneratorState<'a> {
             loop {
                 let c = self.last_included_char.next();
                 if c.is_none() {
-                    return Some(start_of_line.as_str());
+                    return Some((start_of_line.as_str(), self.last_included_line_number));
                 }
                 let c = c.unwrap();
                 self.last_included_position += 1;
                 if c == '\n' {
+                    let line_index = self.last_included_line_number;
                     self.last_included_line_number += 1;
-                    return Some(
+                    return Some((
                         &start_of_line.as_str()
                             [0..(self.last_included_position - start_of_line_pos)],
-                    );
+                        line_index,
+                    ));
                 }
             }
         }
@@ -1206,10 +1209,11 @@ impl<'a> GeneratorState<'a> {
         // debug!("{:?}, {}, {}, {}", expr, pos, self.last_included_position, self.last_included_line_number);
         if self.insert_code {
             let included_source_code = self.generate_included_source_code_line(code.pos);
-            let line_number =
-                self.compiler_state.mapped_lines[self.last_included_line_number].1 - 1;
-            let line_to_be_written =
-                included_source_code.map(|line| format!("(l.{line_number}) {line}"));
+            // The number of the line itself (the line that follows may not exist, or belong to another file)
+            let line_to_be_written = included_source_code.map(|(line, index)| {
+                let line_number = self.compiler_state.mapped_lines[index].1;
+                format!("(l.{line_number}) {line}")
+            });
             // debug!("{:?}, {}, {}", line_to_be_written, self.last_included_position, self.last_included_line_number);
             if let Some(l) = line_to_be_written {
                 // Replace series of whitespaces by a single whitespace
